@@ -17,6 +17,7 @@ EXPLANATION = (
     "clamp(c + max(0,(f>=0 ? max-c : c))·f, min, max) with min/max the type's accessors, fixed forms clamp(c + max·amount); HWB moves "
     "whiteness and blackness in opposite directions; colour-scheme helpers use the documented hue shifts; arithmetic impls apply the "
     "trait's operator to every component. Not decided: monotonicity/boundedness under rounding."
+    " Colour schemes on Alpha equal the bare colour's scheme result by result; SaturatingAdd/Sub apply the same-named scalar operation to every component."
 )
 
 PAIRS = [
